@@ -179,9 +179,10 @@ func (fr *frame) exec(st *State, s ast.Stmt) []Outcome {
 	case *ast.EmptyStmt:
 		return one(st)
 	case *ast.SendStmt:
-		fr.eval(st, x.Value)
+		sv := fr.eval(st, x.Value)
 		fr.fc.reg.assumptions["channel sends are not modelled ("+fr.fc.name+")"] = true
-		fr.fc.ghostHookStmt(st, fr, "send")
+		// `ghost at send: g := e`: e may name the value being sent as `sent`
+		fr.fc.ghostHookStmtVars(st, fr, "send", map[string]*Value{"sent": fr.coerce(st, sv, fr.typeOf(x.Chan).Underlying().(*types.Chan).Elem())})
 		return one(st)
 	case *ast.SelectStmt:
 		return fr.execSelect(st, x)
@@ -504,7 +505,6 @@ func (fr *frame) execSelect(st *State, x *ast.SelectStmt) []Outcome {
 		s := st.clone()
 		choice := mkVar(freshName(fmt.Sprintf("select%d", i)), SBool)
 		s.assume(choice)
-		fr.fc.ghostHookStmt(s, fr, fmt.Sprintf("select-case[%d]", i+1))
 		if cl.Comm != nil {
 			switch c := cl.Comm.(type) {
 			case *ast.AssignStmt:
@@ -516,6 +516,8 @@ func (fr *frame) execSelect(st *State, x *ast.SelectStmt) []Outcome {
 				fr.fc.ghostHookStmt(s, fr, "send")
 			}
 		}
+		// (after the communication, so that a hook can name the value the case received)
+		fr.fc.ghostHookStmt(s, fr, fmt.Sprintf("select-case[%d]", i+1))
 		for _, o := range fr.execBlock(s, cl.Body) {
 			switch {
 			case o.ctl == cNormal, o.ctl == cBreak && o.label == "":
@@ -794,12 +796,16 @@ func (fc *fctx) ghostHook(st *State, fr *frame, call *ast.CallExpr, name string,
 }
 
 func (fc *fctx) ghostHookStmt(st *State, fr *frame, what string) {
+	fc.ghostHookStmtVars(st, fr, what, nil)
+}
+
+func (fc *fctx) ghostHookStmtVars(st *State, fr *frame, what string, vars map[string]*Value) {
 	if fr.contract == nil {
 		return
 	}
 	for _, cl := range fr.contract.Clauses {
 		if cl.Kind == "ghost" && cl.Where == what {
-			fc.ghostAssign(st, fr, cl, nil)
+			fc.ghostAssign(st, fr, cl, vars)
 		}
 	}
 }
